@@ -161,18 +161,16 @@ Definition dump_eqb (a b : list (bytes * list bytes)) : bool :=
    bytes that does not start with a space, parses to a well-formed record and is accepted by the
    accumulator; the range points are well-formed records whose addresses the library prints and
    parses back *)
-(* The file of a case is the list of lines as bufio.ScanLines delivers them (one trailing CR dropped by
-   lib/props/c09.py).  A line that STILL ends in CR is outside the guard, and that cannot be lifted:
-   the preprocessor writes it with its CR, and whoever reads the preprocessed text drops that CR
-   (observed on the unchanged code: 'cr.example.org,abc CR CR compiles to TXT abc CR, its
-   preprocessed form to TXT abc).
+(* The file of a case, and the observed output of the preprocessor, are lists of lines as
+   bufio.ScanLines delivers them (one CR in front of the newline does not belong to the line; a last line
+   without newline is a line).  The model works on such lists.  Writing the preprocessor's lines and reading
+   them again is the identity on lists of lines, because writeLine doubles a CR that ends a line
+   (/repo 517b5b3; before, such a line came back one byte shorter): the harness reads the written text
+   back with bufio.ScanLines and the comparison with the model's output checks exactly that on every file.
    Third disjunct: any other line the preprocessor writes through as it is (first byte neither % nor Z)
    and the compiler, after its TrimLeft of blanks, skips or accepts without feeding the accumulator:
-   lines that begin with blanks, white-space lines, lines whose last field ends in white space. *)
-Definition ends_cr (l : bytes) : bool := match rev l with c :: _ => c =? 13 | [] => false end.
-
+   lines that begin with blanks, white-space lines, lines whose last field ends in white space or CR. *)
 Definition wf_file_lineb (o : toracles) (serial : N) (l : bytes) : bool :=
-  negb (ends_cr l) &&
   (is_ignored l ||
    ((2 <=? length l)%nat && negb (nth 0 l 0 =? 32) &&
     match parse_line o serial l with
